@@ -801,8 +801,10 @@ def run_fault(ctx):
     fprec("fp_srt", "fp_srt", [fx * fx % p])
 
     def fpexp(name):
+        ev = rng.getrandbits(200)
+
         def make():
-            out, a_, e = R.fp_new(), R.fp_new(fx), R.bn(rng.getrandbits(200))
+            out, a_, e = R.fp_new(), R.fp_new(fx), R.bn(ev)
 
             def read():
                 return [R.fp_get(out)[0]]
@@ -817,11 +819,15 @@ def run_fault(ctx):
         fpexp(fn)
 
     def eprec(name, fn, kind, kv=None):
+        kv2 = rng.randrange(1, n)
+        if kv is None:
+            kv = rng.randrange(1, n)
+
         def make():
             r = R.ep_new()
             g = R.ep_new()
             R.ep_put(g, G[0], G[1])
-            k = R.bn(kv if kv is not None else rng.randrange(1, n))
+            k = R.bn(kv)
             if kind == "mul":
                 args = [r, g, k]
             elif kind == "gen":
@@ -830,7 +836,7 @@ def run_fault(ctx):
                 g2 = R.ep_new()
                 pt = C.mul(7, G)
                 R.ep_put(g2, pt[0], pt[1])
-                k2 = R.bn(rng.randrange(1, n))
+                k2 = R.bn(kv2)
                 args = [r, g, k, g2, k2]
             elif kind == "add":
                 g2 = R.ep_new()
@@ -916,7 +922,7 @@ def run_fault(ctx):
         if not R.has(fn):
             continue
         # reference run (no failure): count allocations, remember result and heap growth
-        if not ctx.begin("fault|%s|reference" % name, [name], nontrivial=False, budget=300):
+        if not ctx.begin("fault|%s" % name, {"reference_run": name}, nontrivial=False, budget=300):
             continue
         try:
             args, read, clean = make()
@@ -938,7 +944,8 @@ def run_fault(ctx):
         alloc_counts[name] = A
         points = list(range(1, A + 1))
         if A > cap:
-            points = sorted(set([1, 2, 3, A - 2, A - 1, A] + rng.sample(points, cap)))
+            # deterministic head and tail (set-up and tear-down allocations) plus a random sample of the middle
+            points = sorted(set(points[:250] + points[-30:] + rng.sample(points, max(1, cap - 280))))
         for i in points:
             key = "fault|%s" % name
             if not ctx.begin(key, {"fail_allocation": i, "of": A}, budget=300):
